@@ -123,7 +123,7 @@ def listing(w):
     return set(fs.list("data")) | set(fs.list("metadata"))
 
 
-def run_gc(w, stepper=None, escape_listing=None, lying_exists=None, again=None):
+def run_gc(w, stepper=None, escape_listing=None, lying_exists=None, again=None, escape_as=None):
     """returns (raised exception or None)"""
     with w.env(stepper):
         try:
@@ -154,6 +154,11 @@ def run_gc(w, stepper=None, escape_listing=None, lying_exists=None, again=None):
             def lf(prefix):
                 r = orig(prefix)
                 if prefix.rstrip("/") == escape_listing:
+                    if escape_as is not None:
+                        # a listing that is mostly right: the first entry stays table-relative, the others come back spelled through the
+                        # parent directory ('../<table dir>/data/x') - they leave the root as strings and resolve to LIVE files inside it
+                        r = list(r)
+                        return r[:1] + [f"../{escape_as}/{x}" for x in r[1:]]
                     return list(r) + ["../outside/evil.parquet"]
                 return r
 
@@ -339,6 +344,12 @@ def run_variant(task):
                 case = {"kind": "gc", "world": wk, "variant": variant, "class": "escaping-listing", "prefix": pfx}
                 res.case(key=f"{wk}|{variant}|b|{pfx}", nontrivial=True, labels=["b:escaping-listing", f"world:{wk}", "raised" if r else "returned"], sample=case)
                 judge(res, wi, before, R, P, r, case, f"listing of {pfx} returned '../outside/evil.parquet'")
+                if wk == "local" and pfx != "metadata/inflight":
+                    wi = base.clone(f"{d}/f{pfx.replace('/', '_')}")
+                    r = run_gc(wi, None, escape_listing=pfx, escape_as=os.path.basename(wi.root.rstrip("/")))
+                    case = {"kind": "gc", "world": wk, "variant": variant, "class": "escaping-listing-mixed", "prefix": pfx}
+                    res.case(key=f"{wk}|{variant}|b2|{pfx}", nontrivial=True, labels=["b:escaping-listing", "b:mixed-listing", f"world:{wk}", "raised" if r else "returned"], sample=case)
+                    judge(res, wi, before, R, P, r, case, f"listing of {pfx} returned its entries after the first as '../<table dir>/...'")
         # ---- (c) corruption of reachable metadata-plane files
         if task["part"] in ("c", "all") and task["shard"] == 0:
             targets = [("metadata", "metadata/" + v["metadata_file"])]
